@@ -43,6 +43,13 @@ def main(out):
         for ss in sigs:
             s.add(ss)
     res.append(("zip", p))
+    # an ad-hoc zip: .sig members, no manifest (loaded by scanning the member names)
+    p = os.path.join(out, "adhoc.zip")
+    with zipfile.ZipFile(p, "w") as zf:
+        for i, ss in enumerate(sigs):
+            js = sigmod.save_signatures_to_json([ss])
+            zf.writestr(f"dir/s{i}.sig", js if isinstance(js, bytes) else js.encode())
+    res.append(("zipnomf", p))
     p = os.path.join(out, "a.sqldb")
     with SaveSignaturesToLocation(p) as s:
         for ss in sigs[:1]:
@@ -92,6 +99,14 @@ def main(out):
     p = os.path.join(out, "x.ng")
     ng.save(p)
     res.append(("nodegraph", p))
+    # HyperLogLog sketch
+    from sourmash.hll import HLL
+    h = HLL(0.05, 21)
+    for s in sigs:
+        h.update(s.minhash) if s.minhash.ksize == 21 else None
+    p = os.path.join(out, "x.hll")
+    h.save(p)
+    res.append(("hll", p))
     # taxonomy csv
     p = os.path.join(out, "tax.csv")
     with open(p, "w", newline="") as f:
